@@ -15,6 +15,7 @@ DECIDED = ("R1 the White/Black policy pair is a mirror pair: COLOR swapped, (WOR
            "eval = (pieces(White)+endgame_w) - (pieces(Black)+endgame_b), and on every pair of material values the endgame terms of (w,b) are the colour-swapped ones of (b,w) "
            "(same thresholds on both sides), no colour-specific table is read unless `positional`; R5 score mirror: cmp(mirror a, mirror b) = cmp(b, a) on the extracted order.")
 DECIDED = DECIDED + ' R6 premise re-run here: the king-distance helper read by the endgame evaluation is the mirror-invariant Chebyshev distance (C09.R3). R7 root search window: inside the deepening loop alpha and beta are reset together (White only tightens alpha, Black only beta: one stale bound makes the colours search differently).'
+DECIDED = DECIDED + ' R2 also: a method of the Policy trait implemented once per colour whose two implementations are mirror images counts as a colour switch.'
 NOT_DECIDED = "equality of the reported scores on actual positions (needs the search and move generator as behaviours); positional evaluation (off in the shipped configuration) is exempt"
 EXPLANATION = "K4 tables for the policy functions and eval; K2 scan of every SwitchInt on a Color discriminant with an arm-summary mirror comparison; K1 for the data."
 
